@@ -93,11 +93,16 @@ func (c *MColl) Keys() [][]byte {
 	return ks
 }
 
-// Totals returns the item count and the sum of key+value lengths.
+// curValExtra is the number of bytes the case's ItemValLength callback adds
+// to every value's stored length (0 unless the case is "framed").
+var curValExtra int
+
+// Totals returns the item count and the sum of key+value lengths (value length
+// as the store's ItemValLength callback defines it).
 func (c *MColl) Totals() (uint64, uint64) {
 	var b uint64
 	for k, v := range c.Items {
-		b += uint64(len(k) + len(v.Val))
+		b += uint64(len(k) + len(v.Val) + curValExtra)
 	}
 	return uint64(len(c.Items)), b
 }
